@@ -928,6 +928,72 @@ def ranges(chk, fn, q):
 
 
 # ------------------------------------------------------------------------ R7
+def _module_int_table(tree, name):
+    """The entries of a module-level int64 table that is BUILT instead of written out: np.ones / np.zeros / np.arange / np.cumprod / np.cumsum /
+    np.array(<literals>) over integer constants of the module, with slice stores `T[a:] = <such an expression>`; evaluated with exact Python
+    integers and checked against the int64 range (a wrapped product would differ).  None when a statement about the table is not understood."""
+    consts, val = {}, None
+
+    def ci(e):
+        if isinstance(e, ast.Constant) and type(e.value) is int:
+            return e.value
+        if isinstance(e, ast.Name) and e.id in consts:
+            return consts[e.id]
+        if isinstance(e, ast.BinOp) and isinstance(e.op, (ast.Add, ast.Sub, ast.Mult)):
+            a, b = ci(e.left), ci(e.right)
+            if a is None or b is None:
+                return None
+            return a + b if isinstance(e.op, ast.Add) else (a - b if isinstance(e.op, ast.Sub) else a * b)
+        return None
+
+    def arr(e):
+        if isinstance(e, ast.Name) and e.id == name:
+            return list(val) if val is not None else None
+        if not isinstance(e, ast.Call):
+            return None
+        d = dotted(e.func)
+        if any(k.arg not in ('dtype',) or unparse(k.value) not in ('np.int64', 'int', "'int64'", "'i8'") for k in e.keywords):
+            return None
+        if d in ('np.ones', 'np.zeros') and len(e.args) == 1 and ci(e.args[0]) is not None:
+            return [1 if d == 'np.ones' else 0] * max(0, ci(e.args[0]))
+        if d == 'np.arange' and 1 <= len(e.args) <= 2 and all(ci(a) is not None for a in e.args):
+            return list(range(*[ci(a) for a in e.args]))
+        if d in ('np.array', 'np.asarray') and len(e.args) == 1 and isinstance(e.args[0], (ast.List, ast.Tuple)) and all(ci(x) is not None for x in e.args[0].elts):
+            return [ci(x) for x in e.args[0].elts]
+        if d in ('np.cumprod', 'np.cumsum') and len(e.args) == 1:
+            a = arr(e.args[0])
+            if a is None:
+                return None
+            out, acc = [], (1 if d == 'np.cumprod' else 0)
+            for x in a:
+                acc = acc * x if d == 'np.cumprod' else acc + x
+                out.append(acc)
+            return out
+        return None
+    for st in tree.body:
+        if isinstance(st, ast.Assign) and len(st.targets) == 1 and isinstance(st.targets[0], ast.Name):
+            if st.targets[0].id == name:
+                val = arr(st.value)
+                if val is None:
+                    return None
+            elif ci(st.value) is not None:
+                consts[st.targets[0].id] = ci(st.value)
+        elif isinstance(st, ast.Assign) and len(st.targets) == 1 and isinstance(st.targets[0], ast.Subscript) and unparse(st.targets[0].value) == name:
+            sl = st.targets[0].slice
+            rhs = arr(st.value)
+            if val is None or rhs is None or not (isinstance(sl, ast.Slice) and sl.step is None and sl.upper is None and sl.lower is not None and ci(sl.lower) is not None):
+                return None
+            lo = ci(sl.lower)
+            if lo < 0 or len(val) - lo != len(rhs):
+                return None
+            val[lo:] = rhs
+        elif any(isinstance(n, ast.Name) and n.id == name and isinstance(n.ctx, ast.Store) for n in ast.walk(st)) and not isinstance(st, (ast.FunctionDef, ast.ClassDef)):
+            return None
+    if val is None or any(not (-2**63 <= v < 2**63) for v in val):
+        return None
+    return val
+
+
 def legendre(chk):
     """Evaluate P_n's body for concrete even orders with x symbolic (loop trip count is then a
     constant; factorials come from the literal lookup table) and compare with the Legendre
@@ -939,13 +1005,17 @@ def legendre(chk):
     if isinstance(table, ast.Call) and table.args and isinstance(table.args[0], (ast.List, ast.Tuple)):
         facts = [e.value for e in table.args[0].elts if isinstance(e, ast.Constant)]
     import math
+    if facts is None:
+        facts = _module_int_table(src.tree(PS), 'FACTORIAL_LOOKUP_TABLE')
     okt = facts is not None and len(facts) == 21 and all(facts[i] == math.factorial(i) for i in range(21))
     chk.check(okt, 'C08-R7', PS, '<module>', 'FACTORIAL_LOOKUP_TABLE[n] == n! for n = 0..20', '', 'the factorial lookup table has a wrong entry', node=table)
     if not okt:
         return
     fa, nck = src.func(PS, 'factorial'), src.func(PS, 'n_choose_k')
     okf = unparse(nck.body[-2].value if isinstance(nck.body[-2], ast.Assign) else nck.body[-1]) == 'factorial(n) // (factorial(k) * factorial(n - k))' and \
-        any(unparse(s) == 'factorial = FACTORIAL_LOOKUP_TABLE[n]' for s in fa.body)
+        (any(unparse(s) == 'factorial = FACTORIAL_LOOKUP_TABLE[n]' for s in fa.body) or
+         (isinstance(fa.body[-1], ast.Return) and unparse(fa.body[-1].value) == f'FACTORIAL_LOOKUP_TABLE[{fa.args.args[0].arg}]'
+          and sum(1 for r_ in walk_no_nested(fa) if isinstance(r_, ast.Return)) == 1))      # the table entry of the argument is what is returned (that the index is in range is C11's obligation)
     chk.check(okf, 'C08-R7', PS, 'n_choose_k', 'n_choose_k = n! // (k! (n-k)!) from the lookup table', '', 'binomial coefficient no longer n!/(k!(n-k)!)', node=nck)
     x, nn = [a.arg for a in fn.args.args][:2]
 
@@ -989,18 +1059,29 @@ def legendre(chk):
                         return iv(e.args[0])
                 raise NotInDomain(unparse(e))
             factor = None
+            term_locals = {}
             for st in loops[0].body:
                 if isinstance(st, ast.Assign) and unparse(st.targets[0]) == 'factor':
                     factor = iv(st.value)
                     env['factor'] = factor
+                elif isinstance(st, ast.Assign) and len(st.targets) == 1 and isinstance(st.targets[0], ast.Name) and st.targets[0].id not in term_locals \
+                        and sum(1 for n_ in ast.walk(loops[0]) if isinstance(n_, ast.Name) and n_.id == st.targets[0].id and isinstance(n_.ctx, ast.Store)) == 1:
+                    term_locals[st.targets[0].id] = st.value
                 elif isinstance(st, ast.If):
-                    t = iv(st.test.left) == iv(st.test.comparators[0]) if isinstance(st.test, ast.Compare) and isinstance(st.test.ops[0], ast.Eq) else None
+                    t = None
+                    if isinstance(st.test, ast.Compare) and len(st.test.ops) == 1 and isinstance(st.test.ops[0], (ast.Eq, ast.NotEq)):
+                        t = iv(st.test.left) == iv(st.test.comparators[0])
+                        if isinstance(st.test.ops[0], ast.NotEq):
+                            t = not t
                     if t is None:
                         raise NotInDomain('parity test')
                     for b in (st.body if t else st.orelse):
-                        if isinstance(b, ast.AugAssign) and isinstance(b.op, (ast.Add, ast.Sub)) and isinstance(b.value, ast.BinOp) and isinstance(b.value.op, ast.Mult):
-                            coef = iv(b.value.left)
-                            pw = b.value.right
+                        bval = b.value if isinstance(b, ast.AugAssign) else None
+                        if isinstance(bval, ast.Name) and bval.id in term_locals:
+                            bval = term_locals[bval.id]          # the term bound once to a local before the sign is chosen
+                        if isinstance(b, ast.AugAssign) and isinstance(b.op, (ast.Add, ast.Sub)) and isinstance(bval, ast.BinOp) and isinstance(bval.op, ast.Mult):
+                            coef = iv(bval.left)
+                            pw = bval.right
                             if not (isinstance(pw, ast.BinOp) and isinstance(pw.op, ast.Pow) and unparse(pw.left) == x):
                                 raise NotInDomain('power term')
                             ex = iv(pw.right)          # exponent of x = mu^2
